@@ -11,6 +11,12 @@ Beyond the moderate grid (sections 1-3) the oracle is run
       saturation / the validity limit: round trips with the tolerance of each inverse class (conditioned near saturation), the Henry
       limit decade by decade, sign / saturation / monotonicity, and -- for the rational models -- the EXACT value of the published
       equation (Model/ModelEval.lean run at Q by Drv/ModelEval.lean; theorems Props/C10/Exact.lean);
+  2d. CERTIFIED numerical inverses (TSLangmuir / TemkinApprox / JensenSeaton `pressure`, FH-VST / W-VST `loading`): a deterministic grid of
+      coverage strata 0 ... 0.99 (dense from 0.8 upwards, one jittered point per stratum) x parameter vectors from the moderate and the wide
+      box with the shape parameter on its corners (FH-VST a1v in [-0.9, 5]: inside `fhvst_strictMonoOn`, the inverse is unique) x the
+      scalar argument kinds (float, numpy scalar, 0-d, length-1): whenever the inverse RETURNS, the closed-form direction evaluated at the
+      returned point gives the argument back (residual certificate, 1e-6; measured <= 1e-10) -- a refusal (CalculationError) is fine, an
+      answer that is not a root is not (Props/C10/PressureExplicit.lean `fhvst_certified_root_unique`, `fhvst_other_point_not_root`, W-VST alike);
   2c. every model method x every argument kind (python float/int, numpy scalars, 0-d, 1-d, length-1, read-only, strided, reversed,
       2-d, float32, integer arrays, lists, pandas Series): argument bitwise unchanged, result = element-wise scalar results, a
       second call gives the identical answer (Props/C10/Range.lean `call_*`);
@@ -240,6 +246,7 @@ def run(ck):
         # the hand-written reference does not depend on the generated files: make sure it is there when the main build stopped early
         ck.lake_build(["PgVerif.Drv.ModelEval"])
     wide_sweep(ck, pg, np, models, note)
+    certified_inverses(ck, pg, np, models, note)
     import pandas as pd
     arg_kinds_bare(ck, pg, np, pd, models)
 
@@ -623,6 +630,77 @@ def wide_sweep(ck, pg, np, models, note):
                 fail({"model": name, "region": "wide", "clause": "value-of-the-published-equation", "fn": fn},
                              {"params": par, "argument": arg, "K*p": x, "library": got, "exact": float(ex), "relative_error": e, "tol": tol})
     ck.cov["exact_reference_cases"] = len(ex_lines)
+
+
+# ====================================================================================================================
+#  2d. numerical inverses are certified at the returned point (coverage strata up to 0.99 x parameter corners)
+# ====================================================================================================================
+
+def certified_inverses(ck, pg, np, models, note):
+    """`pressure(loading(p)) = p` / `loading(pressure(n)) = n` WHEREVER THE NUMERICAL INVERSE RETURNS (the property: "numerical inverses ...
+    only where the library reports success"): a refusal is outside the quantifier, an answer is inside it whatever the solver's own flag said.
+    The point handed to the inverse is the closed-form direction's value at a known argument, so a root exists; the certificate is the
+    closed-form direction evaluated at the RETURNED point (it does not assume that the root is unique).  Stratified: one jittered point in each
+    of 18 coverage strata 0 ... 0.99 per parameter vector, so that a failure region of a fraction of a percent of the (coverage x parameter)
+    box -- a solver that stalls on the steep approach to saturation for some shapes only -- is hit in the quick tier."""
+    from pygaps.utilities.exceptions import CalculationError
+    rng = ck.rng
+    fail = _capped(ck)
+    stats = {}
+    for name in models:
+        if name not in L.CERTIFIED:
+            continue
+        pexp = name in PEXPLICIT
+        st = stats.setdefault(name, {"answered": 0, "refused": 0, "start_value_returned": 0, "worst_residual": 0.0})
+        for iv in range(ck.n(L.CERTIFIED[name], 6 * L.CERTIFIED[name])):
+            par = L.certified_params(name, rng, iv)
+            m = make(pg, name, par)
+            fwd, inv = (m.pressure, m.loading) if pexp else (m.loading, m.pressure)
+            xs = L.certified_arguments(np, name, par, m, rng)
+            ck.count(("cert", name, tuple(par.values())), bucket="certified-inverse:" + name)
+            for j, (cov, x) in enumerate(xs):
+                with np.errstate(all="ignore"):
+                    y = float(fwd(np.float64(x)))
+                if not (math.isfinite(y) and 1e-290 < y < 1e290):
+                    continue
+                kind = L.CERT_KINDS[(iv + j) % len(L.CERT_KINDS)]
+                arg = L.cert_kind(np, kind, y)
+                try:
+                    with np.errstate(all="ignore"):
+                        res = inv(arg)
+                except CalculationError:
+                    st["refused"] += 1          # the library reports the failure: outside the quantifier
+                    continue
+                except Exception as e:  # noqa
+                    fail({"model": name, "region": "certified-inverse", "clause": "scalars-and-arrays-alike", "how": "raises", "fn": inv.__name__, "argument": kind},
+                         {"params": par, "coverage": cov, "argument_value": y, "error": repr(e)[:300]})
+                    continue
+                st["answered"] += 1
+                sig = {"model": name, "region": "certified-inverse", "clause": "numerical-inverse-certified-at-returned-point", "fn": inv.__name__, "argument": kind}
+                try:
+                    flat = np.asarray(res, dtype=float).ravel()
+                    back = float(flat[0])
+                    assert flat.size == 1
+                except Exception:  # noqa
+                    fail({**sig, "how": "not-one-number"}, {"params": par, "coverage": cov, "argument_value": y, "result": repr(res)[:300]})
+                    continue
+                with np.errstate(all="ignore"):
+                    yb = float(fwd(np.float64(back)))
+                e = relerr(yb, y) if math.isfinite(yb) else float("inf")
+                if e <= 1e-6:
+                    st["worst_residual"] = max(st["worst_residual"], e)
+                    note(name + ".certified-inverse.residual", e)
+                    continue
+                det = {"params": par, "coverage_of_the_known_root": cov, "known_root": x, "argument_value": y, "returned": back,
+                       ("pressure" if pexp else "loading") + "_at_returned": yb, "relative_residual": e, "tol": 1e-6}
+                if pexp and back == 0.0:
+                    # known findings S24c (FH-VST) / S24b (W-VST): the hybr iteration overflows in its first step and the START VALUE 0 comes back
+                    # with success -- filed under the signature of those findings (measured: 1-12 of 10 000 points, small n_m; nothing else)
+                    st["start_value_returned"] += 1
+                    fail({"model": name, "clause": "loading(pressure(n))=n", "how": "start value 0.0 returned"}, det)
+                    continue
+                fail(sig, det)
+    ck.cov["certified_inverses"] = {k: {**v, "worst_residual": float(f"{v['worst_residual']:.3g}")} for k, v in stats.items()}
 
 
 # ====================================================================================================================
